@@ -267,6 +267,22 @@ func genNormal(rt *rapid.T) Case {
 	for i := 0; i < ne; i++ {
 		c.Events = append(c.Events, genEvent(rt, c.Rules, allowContainers))
 	}
+	if pct(rt, 12, "twin") {
+		// a twin of one event goes first: the same segments written as ONE segment containing the separator (or,
+		// for a one-segment kind, an empty kind / an empty segment) - other kinds, which print alike when joined
+		i := uni(rt, 0, len(c.Events)-1, "twini")
+		tw := c.Events[i]
+		tw.Name = tw.Name + "t"
+		switch {
+		case len(tw.Kind) >= 2:
+			tw.Kind = []string{strings.Join(tw.Kind, ".")}
+		case pct(rt, 50, "twinempty"):
+			tw.Kind = []string{}
+		default:
+			tw.Kind = []string{tw.Kind[0], ""}
+		}
+		c.Events = append(append(append([]EventC{}, c.Events[:i]...), tw), c.Events[i:]...)
+	}
 	c.Ecal = pct(rt, 25, "ecal")
 	return c
 }
